@@ -55,7 +55,12 @@ PROP = {
             "overlapping Handler.AddMiddleware calls from 2..4 goroutines released together (same and different handlers, 1..3 "
             "calls each) between sequential registrations - the observation is part of the request (cchain) and the model checks "
             "that SOME serialisation of the block explains it; the monitor demands every registered middleware exactly once, "
-            "sequential order and each goroutine's own order preserved, order between goroutines free. Every registration call of every program is made from a slice the application owns, "
+            "sequential order and each goroutine's own order preserved, order between goroutines free. failing_decorator_or_stopped_handler (9 fixed programs, and inside the random ones): decorators that return an "
+            "error the first time they are applied to a handler added to the running router (P<ids>! / S<ids>!: nil or their "
+            "argument together with the error), the failing one not the first one applied - RunHandlers reports it and is called "
+            "again until it succeeds, the chain must then be the registered decorators, each once, in order; Handler.Stop() of one of "
+            ">= 2 running handlers (T<h>), handlers added and given middlewares afterwards - they run router-level + their own, none "
+            "of a running or stopped handler's, and the running handlers keep their chains. Every registration call of every program is made from a slice the application owns, "
             "with spare capacity, passed as `xs...`; token X (11 fixed programs caller_edits_its_slices, a third of the random "
             "programs, one AddHandler-placement variant of the exhaustive enumeration and a copy of every decorator-length case): "
             "the application hands all those slices, extended on their spare capacity by a foreign recorder, to a second router and "
@@ -87,6 +92,12 @@ PROP = {
         "does not (model loadPlugins; theorem plugins_loaded_before_handlers_start).",
         "The router copies what it is given at registration time (`append(r.list, arg...)`): later edits of the caller's slice are "
         "invisible (model: Op.callerEdits is a no-op; theorem caller_edits_invisible; facts Add*Decorators_copies_the_arguments).",
+        "Failing decorators: a subscriber decorator fails only in programs without publisher decorators - in the code as it is a "
+        "failed decorateHandlerSubscriber leaves the publisher, which was decorated just before, decorated, and the retried "
+        "RunHandlers decorates it a second time (reported as a defect of the unchanged tree, reproduced with the C08 harness "
+        "token E<id>!). A failed decorateHandlerPublisher commits nothing.",
+        "A stopped handler's name and number are not used again (in the code as it is a handler added later under the same name "
+        "would inherit the stopped handler's handler-level middlewares, which are matched by name).",
         "Router.AddMiddleware does not take middlewaresLock: programs register from one goroutine and only after every started handler "
         "has processed a message (so its snapshot has been taken); concurrent registration is outside the property.",
     ],
